@@ -1112,6 +1112,14 @@ func genSeq(r *Rng, mode string, steps int) *Enc {
 		if steps < 3 {
 			steps = 3
 		}
+	case (mode == "c08" || mode == "c19") && r.Intn(12) == 0:
+		// the frame is looked at, then a column is renamed (the column count stays), then it is used again: anything
+		// remembered from the first look must not survive the rename
+		last := map[string][]string{"c08": {"iloc", "multiselect", "qnames", "qrow"}, "c19": {"shift"}}[mode]
+		s.script = []string{Pick(r, []string{"qnames", "qrow", "qshape", last[0]}), "rename", Pick(r, last)}
+		if steps < 3 {
+			steps = 3
+		}
 	case mode == "c08" && r.Intn(50) == 0:
 		s.pool = []*DF{bigFrame(r, Pick(r, []int{513, 515, 1021, 1027}), r.Range(1, 3))}
 		s.kinds = []string{"filter", "filter", "head", "tail", "rowslice", "iloc", "droprow"}
